@@ -578,7 +578,8 @@ def completely_flatten(array):
     elif isinstance(array, recordtypes):
         out = []
         for i in range(array.numfields):
-            out.extend(completely_flatten(array.field(i)))
+            # a field may be longer than the RecordArray: only its first len(array) items belong to it
+            out.extend(completely_flatten(array.field(i)[0 : len(array)]))
         return tuple(out)
 
     elif isinstance(array, ak.layout.NumpyArray):
